@@ -43,3 +43,4 @@ def run(ctx):
     for e in got:
         n = len(re.findall(r"&\s*%s\b" % e["flag"], body))
         ctx.ob(rule, e["flag"], n >= 1, "c/tskit/tables.c (simplifier_*)", "%s tested %d time(s)" % (e["flag"], n))
+    lib_mem.c_lints(ctx, ctx.program(), scopes.lib_scope("C04"))
